@@ -29,8 +29,8 @@ import (
 // script says so) and the real client.RPCClient, on which the script issues
 // Stop / Close / new requests. A split record is: agent writes the record
 // header; the harness waits until the client's reader goroutine is inside the
-// subscription's Handle (seen in the goroutine dump: the handler was looked up
-// and the reader is, or is about to be, parked in the body decode); the
+// subscription's Handle and blocked on the network (seen in the goroutine dump:
+// the handler was looked up and the reader is parked in the body decode); the
 // scripted action runs (for Stop the harness waits until the stop request
 // reaches the agent, i.e. the local deregistration is over); the agent writes
 // the body; only then does the agent answer whatever request is outstanding
